@@ -1,8 +1,6 @@
 #!/bin/sh
 # usage: tools/try_patch.sh <patch.diff> <ID> [check args...]
-# applies a patch to /repo, runs the check, always reverts.  Exit code of the check is returned.
+# Runs the check against /repo + patch.  The patch is applied under an exclusive lock only while
+# the harness is built and reverted right after, so concurrent checks never see it.
 p="$1"; id="$2"; shift 2
-git -C /repo apply "$p" || { echo "patch does not apply"; exit 3; }
-/verif/check "$id" "$@"; rc=$?
-git -C /repo checkout -- . 
-exit $rc
+exec /verif/check "$id" --patch "$p" "$@"
